@@ -159,3 +159,19 @@ Theorem C04_content_acceptor_sound : forall cap0 fx calls x k ls,
                        ++ MonitorContent.trace_ctx x (sinit cap0 fx) ls) = [].
 Proof. exact MonitorContent.content_sound. Qed.
 Print Assumptions C04_content_acceptor_sound.
+
+(** ** Round "proofs 3": the duplicate acceptor on COMPOSED runs - no hypothesis left *)
+From WM Require GoChannel.Compose GoChannel.ComposeTrace.
+(** in the composed system (registry x one send protocol per subscription) the LSpawn labels an
+    instance sees carry pairwise distinct publications - it was the hypothesis of
+    [C04_no_dup_acceptor_sound], now a theorem - so [Monitor.mon_no_dup] accepts the API history
+    of every subscription of every composed run, all modes, both loop variants *)
+Theorem C04_spawn_pubs_nodup_composed : forall pers blk fx caps fa cls x,
+  NoDup (MonitorSound.spawn_pubs (Compose.sub_labels x (Compose.cinit pers blk fx caps fa) cls)).
+Proof. exact ComposeTrace.spawn_pubs_nodup. Qed.
+Print Assumptions C04_spawn_pubs_nodup_composed.
+Theorem C04_no_dup_acceptor_sound_composed : forall pers blk fx caps fa cls x,
+  Monitor.mon_no_dup (MonitorSound.trace x (sinit (caps x) fa)
+                        (Compose.sub_labels x (Compose.cinit pers blk fx caps fa) cls)) = [].
+Proof. exact ComposeTrace.no_dup_acceptor_sound_composed. Qed.
+Print Assumptions C04_no_dup_acceptor_sound_composed.
